@@ -16,15 +16,25 @@ TOKEN = re.compile(r'''
 ''', re.X | re.S)
 
 
+BOL = set()      # indexes (into the last tokenize() result) of tokens that start a line
+
+
 def tokenize(text):
     out = []
+    BOL.clear()
+    bol = True
     for m in TOKEN.finditer(text):
         k = m.lastgroup
         if k == 'ws':
+            if '\n' in m.group():
+                bol = True
             continue
         v = m.group()
         if k == 'bq':
             k, v = 'id', v[1:-1]
+        if bol:
+            BOL.add(len(out))
+            bol = False
         out.append((k, v))
     return out
 
@@ -129,8 +139,8 @@ def scan(lang, text, generic_classes):
     n = len(t)
     TA_OPEN, TA_CLOSE = ('[', ']') if lang == 'scala' else ('<', '>')
     for i, (k, v) in enumerate(t):
-        if lang in ('java', 'groovy') and k == 'op' and v == '<' and i > 0 and t[i - 1] in (
-                ('op', '{'), ('op', '}'), ('op', ';')):
+        if lang in ('java', 'groovy') and k == 'op' and v == '<' and i > 0 and (i in BOL or t[i - 1] in (
+                ('op', '{'), ('op', '}'), ('op', ';'))):
             names, _ = group_names(t, i, '<', '>')
             for nm in names:
                 inv['fun_tparams'][nm] += 1
